@@ -39,6 +39,9 @@ struct Base {
     events: Vec<Ev>,
     finals: String,
     calls_q1: usize,
+    /// how the measured run is started: RUN, or (after a stale break left by `prelude`) GOTO first line
+    start_cmd: String,
+    prelude: Option<String>,
 }
 
 /// Uninterrupted run with a fixed quantum; None when it does not finish within the budget.
@@ -94,7 +97,12 @@ fn interrupted(texts: &[String], replies: &[String], probes: &[String], base: &B
     o.quantum = 1;
     o.replies = replies.iter().cloned().collect();
     o.interrupt_on_starved_input = false;
-    term.enter_raw("RUN");
+    if let Some(p) = &base.prelude {
+        // an earlier break that is never continued: the run below is started beside it
+        term.line(p, &mut o);
+        term.take();
+    }
+    term.enter_raw(&base.start_cmd);
     let mut n = 0;
     let mut inputs_seen = 0;
     let mut nontrivial = false;
@@ -265,9 +273,20 @@ fn gen_plain(t: &mut Tape) -> Generated {
 
 fn check_interrupt_points(t: &mut Tape, ctx: &Ctx) -> Outcome {
     let g = gen_plain(t);
-    let texts = g.prog.texts();
+    let mut texts = g.prog.texts();
     let probes = probes_text(&g);
-    let case = case_text(&g);
+    let mut case = case_text(&g);
+    // a third of the cases start the run with GOTO <first line> while an older break (a STOP
+    // reached by a direct GOTO and never continued) is still pending
+    let mut start_cmd = "RUN".to_string();
+    let mut prelude = None;
+    if t.chance(1, 3) && g.prog.lines.iter().all(|l| l.num < 65000) && !g.prog.lines.is_empty() {
+        texts.push("65528 END".to_string());
+        texts.push("65529 STOP".to_string());
+        prelude = Some("GOTO 65529".to_string());
+        start_cmd = format!("GOTO {}", g.prog.lines[0].num);
+        case.push_str(&format!("\n65528 END\n65529 STOP\n(first GOTO 65529 -> ?BREAK, never continued; the measured run is started with {})", start_cmd));
+    }
     crate::runner::note_case(&case);
     let (ev, fin, calls) = match baseline(&texts, &g.replies, &probes, 1, &[]) {
         Some(x) => x,
@@ -276,7 +295,8 @@ fn check_interrupt_points(t: &mut Tape, ctx: &Ctx) -> Outcome {
     if let Some(m) = has_panic(&ev) {
         return Outcome::fail("panic", m, case);
     }
-    let base = Base { events: ev, finals: fin, calls_q1: calls };
+    let stale = prelude.is_some();
+    let base = Base { events: ev, finals: fin, calls_q1: calls, start_cmd, prelude };
     // every k when the run is short, else a sample; plus every INPUT wait
     let mut ks: Vec<usize> = vec![];
     let limit = if ctx.thorough { 400 } else { 120 };
@@ -331,6 +351,9 @@ fn check_interrupt_points(t: &mut Tape, ctx: &Ctx) -> Outcome {
     }
     if inspect.is_some() {
         labels.push("variables inspected between break and CONT");
+    }
+    if stale {
+        labels.push("run started by GOTO beside an older, never continued break");
     }
     if tried == 0 {
         return Outcome::discard("no interruption point inside the program");
@@ -416,6 +439,11 @@ fn insertion_points(stmts: &[Stmt], path: &mut Vec<(usize, bool)>, out: &mut Vec
             }
         }
     }
+    // behind the last statement of the line (for the last line: the very end of the program),
+    // unless that would land inside an IF arm or a remark
+    if path.is_empty() && !stmts.is_empty() && !stmts.iter().any(|s| matches!(s, Stmt::Rem { .. } | Stmt::If { .. })) {
+        out.push((vec![], stmts.len()));
+    }
 }
 
 fn insert_at(stmts: &mut Vec<Stmt>, path: &[(usize, bool)], idx: usize, what: &[Stmt]) {
@@ -469,10 +497,24 @@ fn check_inserted_stop(t: &mut Tape, ctx: &Ctx) -> Outcome {
     let mut nontrivial = false;
     for _ in 0..tries {
         let (li, path, idx) = pts[t.below(pts.len())].clone();
-        let use_end = t.chance(1, 2);
+        let mut use_end = t.chance(1, 2);
+        if path.is_empty() {
+            // an END with no code behind it (only remarks / DATA) is the end of the program: it
+            // cannot be continued, and need not be
+            let rest_on_line = g.prog.lines[li].stmts[idx..].iter().any(has_code);
+            let later = g.prog.lines[li + 1..].iter().any(|l| l.stmts.iter().any(has_code));
+            if !rest_on_line && !later {
+                use_end = false;
+            }
+        }
         let mut p2 = g.prog.clone();
         let what: Vec<Stmt> = if use_end { vec![Stmt::Print(vec![PItem::Expr(E::Str(MARK.into())), PItem::Semi]), Stmt::End] } else { vec![Stmt::Stop] };
         insert_at(&mut p2.lines[li].stmts, &path, idx, &what);
+        // a STOP behind the program's final END is never reached: let it take the END's place,
+        // so that the STOP is the very last statement of the stored program
+        if !use_end && path.is_empty() && li + 1 == p2.lines.len() && idx > 0 && idx + 1 == p2.lines[li].stmts.len() && matches!(p2.lines[li].stmts[idx - 1], Stmt::End) {
+            p2.lines[li].stmts.remove(idx - 1);
+        }
         let line_no = p2.lines[li].num;
         let texts2 = p2.texts();
         if texts2[li].len() > 1000 {
